@@ -43,7 +43,7 @@ class Table(object):
         self.label, self.partial = label, partial
 
 
-@harness(['C04', 'C01', 'C02'], 'supp.scope.LoopFlow.names + the memo descriptor of Flow.names / Flow.parent_names')
+@harness(['C04', 'C01', 'C02', 'C03'], 'supp.scope.LoopFlow.names + the memo descriptor of Flow.names / Flow.parent_names')
 def loop_memo_epoch(run):
     """LoopFlow.names on real Flow / LoopFlow / SourceScope objects, with the predecessor computation (`parent.names`) replaced by
     its contract: it memoises tables - partial ones, since a back edge is unresolved - on other regions through the REAL descriptor.
